@@ -344,7 +344,26 @@ def fam_mixed(rng):
     return prog_with_setup(rng, th, cs=cs)
 
 
+def fam_panic_help(rng):
+    """fallback reader helped by a writer while the stored value's destructor panics (C18)"""
+    th = []
+    th.append([{"op": "store", "c": 0, "v": new(True)}] if rng.random() < 0.5 else [])
+    nr = rng.choice([1, 1, 2])
+    for t in range(2, 2 + nr):
+        ops = [{"op": "wait", "t": 1}]
+        for i in range(rng.randrange(1, 3)):
+            g = t * R + i
+            ops += [{"op": "load", "c": 0, "g": g}, {"op": "deref_g", "g": g}, {"op": "drop_g", "g": g}]
+        th.append(ops)
+    for t in range(2 + nr, 3 + nr + rng.choice([0, 1])):
+        th.append([{"op": "wait", "t": 1}] + [{"op": "store", "c": 0, "v": new(rng.random() < 0.5)} for _ in range(rng.randrange(1, 3))])
+    p = prog_with_setup(rng, th, strategy="nofast", pnull=0.0)
+    p["threads"][0] = [{"op": "new", "c": 0, "v": new(True)}]
+    return p
+
+
 FAMILIES = {
+    "panic_help": fam_panic_help,
     "rw": fam_rw2,
     "cas": fam_cas,
     "guards": fam_guards,
